@@ -462,15 +462,18 @@ def cascade_part(_):
     step.  Whatever the order in which the loops are resolved: a flow may only lose to a flow that really proceeds."""
     res = {"cascade_programs": 0, "cascade_outcomes": 0, "viol": []}
     spec = {"hi": "E(k=1, m=2)", "lo": "E(k=1)"}
-    for pq, cd, order, child_first in itertools.product(("q-wins", "p-wins", "tie"), ("c-wins", "d-wins", "tie"),
-                                                        itertools.permutations(("p", "d", "q")), (True, False)):
+    for pq, cd, order, child_first in itertools.product(("q-wins", "p-wins", "tie"), ("c-wins", "d-wins", "tie", "c-alone"),
+                                                        list(itertools.permutations(("p", "d", "q"))) + [("z", "p", "d", "q"), ("p", "z", "d", "q"), ("p", "d", "q", "z")], (True, False)):
+        if cd == "c-alone" and "z" not in order:
+            continue
         mp, mq = {"q-wins": ("lo", "hi"), "p-wins": ("hi", "lo"), "tie": ("hi", "hi")}[pq]
-        mc, md = {"c-wins": ("hi", "lo"), "d-wins": ("lo", "hi"), "tie": ("hi", "hi")}[cd]
+        mc, md = {"c-wins": ("hi", "lo"), "d-wins": ("lo", "hi"), "tie": ("hi", "hi"), "c-alone": ("hi", None)}[cd]
         p_body = ["start c", f"match {spec[mp]}", "start ActPAction()", "match Never()"] if child_first else \
                  ["start c", f"match {spec[mp]}", "start ActPAction()", "match Never()"]
         src = ("flow p\n" + "".join("  " + l + "\n" for l in p_body) + "\n"
                + f'@loop("L2")\nflow c\n  match {spec[mc]}\n  start ActCAction()\n  match Never()\n\n'
-               + f'@loop("L2")\nflow d\n  match {spec[md]}\n  start ActDAction()\n  match Never()\n\n'
+               + (f'@loop("L2")\nflow d\n  match {spec[md]}\n  start ActDAction()\n  match Never()\n\n' if md else "flow d\n  match Never()\n\n")
+               + ('@loop("L3")\nflow z\n  match E(k=1)\n  start ActZAction()\n  match Never()\n\n' if "z" in order else "")
                + f"flow q\n  match {spec[mq]}\n  start ActQAction()\n  match Never()\n\n"
                + "flow main\n" + "".join(f"  start {f}\n" for f in order) + "  match Never()\n")
         if not child_first:
@@ -490,6 +493,16 @@ def cascade_part(_):
             started = {e["type"][8:9].lower() for e in st2.outgoing_events if e["type"].startswith("StartAct")}
             stopped = {e["type"][7:8].lower() for e in st2.outgoing_events if e["type"].startswith("StopAct")}
             what = None
+            if "z" in order and ("z" not in started or not sm.is_listening_flow(st2.flow_id_states["z"][-1])):
+                what = "flow z lives in a loop of its own (L3) and reacts to the event: it must start its action whatever happens in the other loops"
+                res["viol"].append(("cascade:flow-of-an-unrelated-loop-did-not-proceed",
+                                    f"[{pq}, {cd}, started {list(order)}, tie-break {list(vec)}] {what}; events {[e['type'] for e in st2.outgoing_events]}", dict(info, vector=list(vec))))
+                break
+            if md is None:
+                alive["d"] = not alive["c"]    # no competitor in L2: c proceeds iff its parent p does
+                if alive["c"] != alive["p"]:
+                    res["viol"].append(("cascade:only-child-in-its-loop", f"[{pq}, {cd}, started {list(order)}, tie-break {list(vec)}] c alone in L2: alive {alive}", dict(info, vector=list(vec))))
+                    break
             for f in "pcdq":
                 if f in started and not alive[f] and f not in stopped:
                     what = f"flow {f} is over after the step but the action it started in this step was not stopped"
